@@ -61,7 +61,7 @@ void harness(void){
     unsigned clfmt=in_range(0,3); unsigned char d=in_u8(); __CPROVER_assume(d>='0'&&d<='9'); gen_cl(0,clfmt,d); nlines=1;
 #elif SCEN==5    /* host in the target vs Host field */
     unsigned urih=URIH, urip=in_range(0,2), hh=HH, hp=in_range(0,2);   /* which hosts: constants per query; ports, case, whitespace symbolic */   /* 0 none, 1 'a', 2 'b'; port 0 none, 1 80, 2 81 */
-    if(urih){ URI.hostname=bstr_dup_c(urih==1?"a":"b"); __CPROVER_assume(URI.hostname); if(urip) URI.port_number=(urip==1)?80:81; }
+    if(urih){ URI.hostname=bstr_dup_c(urih==1?"a":(urih==2?"b":"ab"));      /* 3: a target host that strictly extends the Host-field name */ __CPROVER_assume(URI.hostname); if(urip) URI.port_number=(urip==1)?80:81; }
     if(hh){ gen_host(0,hh-1,hp); nlines=1; }
 #elif SCEN==6    /* folded Content-Length, joined as htp_connp_REQ_HEADERS joins it (pending line ++ continuation line) */
     unsigned char d=in_u8(); __CPROVER_assume(d>='0'&&d<='9'); gen_cl(0,0,d); L[0][LN[0]++]=' '; nlines=1;
@@ -91,7 +91,8 @@ void harness(void){
       assert(((f&HTP_HOST_AMBIGUOUS)!=0)==amb);
       assert(((f&HTP_HOST_MISSING)!=0)==(proto==2 && !hh));
       assert(!(f&HTP_HOSTH_INVALID));
-      if(urih){ assert(TX.request_hostname && bstr_len(TX.request_hostname)==1 && bstr_ptr(TX.request_hostname)[0]==(urih==1?'a':'b')); }
+      if(urih==3){ assert(TX.request_hostname && bstr_len(TX.request_hostname)==2 && bstr_ptr(TX.request_hostname)[0]=='a' && bstr_ptr(TX.request_hostname)[1]=='b'); }
+      else if(urih){ assert(TX.request_hostname && bstr_len(TX.request_hostname)==1 && bstr_ptr(TX.request_hostname)[0]==(urih==1?'a':'b')); }
       else if(hh){ assert(TX.request_hostname && bstr_len(TX.request_hostname)==1 && (bstr_ptr(TX.request_hostname)[0]|0x20)==(hh==1?'a':'b')); assert(TX.request_port_number==(hp==0?-1:(hp==1?80:81))); }
       else assert(TX.request_hostname==NULL);
       VERIF_COVER(((f&HTP_HOST_AMBIGUOUS)!=0)==amb, "host scenario evaluated"); }
